@@ -357,6 +357,61 @@ func main() {
 			o.Emit(fix(l))
 		}
 	}
+	// ---- the authenticated modes of the HPKE DHKEMs use two Diffie-Hellman values: a false flag on EITHER is an error (sender identity
+	// of low order at the receiver, recipient key of low order at the sender), and so is the all-zero value a 4q secret produces (X448)
+	for _, w := range ws[:2] {
+		as, ok := w.sch.(kem.AuthScheme)
+		if !ok {
+			vlib.Die("%s is not an AuthScheme", w.name)
+		}
+		pkR, skR := w.sch.DeriveKeyPair(vlib.Bytes(rng, w.sch.SeedSize()))
+		pkS, skS := w.sch.DeriveKeyPair(vlib.Bytes(rng, w.sch.SeedSize()))
+		es := vlib.Bytes(rng, w.sch.EncapsulationSeedSize())
+		ct, _, err := as.AuthEncapsulateDeterministically(pkR, skS, es)
+		o.Emit(fix(line{Ev: "kem", Kem: w.name, Site: "honest", Op: "auth-encapsulate", Err: err != nil}))
+		_, err = as.AuthDecapsulate(skR, ct, pkS)
+		o.Emit(fix(line{Ev: "kem", Kem: w.name, Site: "honest", Op: "auth-decapsulate", Err: err != nil}))
+		for i, lo := range low[w.xsize] {
+			bad, derr := w.sch.UnmarshalBinaryPublicKey(lo)
+			for _, op := range []string{"auth-encapsulate(low-order recipient)", "auth-decapsulate(low-order sender)", "auth-decapsulate(low-order enc)"} {
+				l := line{Ev: "kem", Kem: w.name, Site: fmt.Sprintf("low-order-peer#%d", i), Op: op}
+				if derr != nil && op != "auth-decapsulate(low-order enc)" {
+					l.Err, l.Note = true, "refused at key decoding"
+					o.Emit(fix(l))
+					continue
+				}
+				var err error
+				oc := vlib.Safe(60e9, func() {
+					switch op {
+					case "auth-encapsulate(low-order recipient)":
+						_, _, err = as.AuthEncapsulateDeterministically(bad, skS, es)
+					case "auth-decapsulate(low-order sender)":
+						_, err = as.AuthDecapsulate(skR, ct, bad)
+					default:
+						_, err = as.AuthDecapsulate(skR, lo, pkS)
+					}
+				})
+				l.Err = err != nil || oc.Bad()
+				if oc.Bad() {
+					l.Note = "panic: " + oc.Panic
+				}
+				o.Emit(fix(l))
+			}
+		}
+		if w.xsize == 56 {
+			q4 := vlib.UnHex("cc1361ad4a0ae38d543d1637ca09b38540da58bb266d3b11a78f28f3fdffffffffffffffffffffffffffffffffffffffffffffffffffffff")
+			sk4, err := w.sch.UnmarshalBinaryPrivateKey(q4)
+			l := line{Ev: "kem", Kem: w.name, Site: "secret-4q", Op: "decapsulate"}
+			if err != nil {
+				l.Err, l.Note = true, "refused at key decoding"
+			} else {
+				enc, _, _ := w.sch.EncapsulateDeterministically(pkR, es)
+				oc := vlib.Safe(60e9, func() { _, err = w.sch.Decapsulate(sk4, enc) })
+				l.Err = err != nil || oc.Bad()
+			}
+			o.Emit(fix(l))
+		}
+	}
 	vlib.WriteJSON(*jobsOut, jobs)
 	fmt.Printf("lines=%d jobs=%d\n", o.N, len(jobs))
 }
